@@ -319,10 +319,29 @@ def rules(rep, m):
         sc = [c for c in walk(f.body) if c["kind"] == "CallExpr" and callee_ref(c) == "cmb_event_schedule"]
         good = len(rm) == 1 and common.same_object(m, fx.canon(kids(rm[0])[1]), f.params[0]["name"]) and \
             fx.canon(kids(rm[0])[2]) == f.params[1]["name"]
+        if wake and not rm:
+            # cancel = remove + wake-up: the removal is delegated to cmb_resourceguard_remove (checked in the next round of
+            # this loop), whose result must say whether the process was in the queue
+            dl = [c for c in walk(f.body) if c["kind"] == "CallExpr" and callee_ref(c) == "cmb_resourceguard_remove"]
+            g = m.need("cmb_resourceguard_remove")
+            gx = FuncCtx(m, g)
+            truthful = True
+            for rt in [x for x in walk(g.body) if x["kind"] == "ReturnStmt" and kids(x)]:
+                v = gx.canon(kids(rt)[0])
+                if v in ("0", "false"):
+                    continue
+                if re.fullmatch(r"cmi_hashheap_(is_enqueued|cancel|remove)\(.*\)", v):
+                    continue
+                if any(not cd.startswith("!") and re.search(r"cmi_hashheap_(is_enqueued|cancel|remove)\(", cd)
+                       for cd in inv.dominating_conditions(gx, g, rt)):
+                    continue
+                truthful = False
+            good = len(dl) == 1 and truthful and fx.canon(kids(dl[0])[1]) == f.params[0]["name"] and \
+                fx.canon(kids(dl[0])[2]) == f.params[1]["name"]
         if wake:
             # the wake-up is sent only if the process was in the queue (membership test or the removal's result)
             member = good and len(sc) == 1 and any(
-                not cd.startswith("!") and re.search(r"cmi_hashheap_(is_enqueued|cancel|remove)\(", cd)
+                not cd.startswith("!") and re.search(r"(cmi_hashheap_(is_enqueued|cancel|remove)|cmb_resourceguard_remove)\(", cd)
                 for cd in inv.dominating_conditions(fx, f, sc[0]))
             good = good and len(sc) == 1 and fx.canon(kids(sc[0])[2]) == f.params[1]["name"] and \
                 common.sigval(fx.canon(kids(sc[0])[3])) == SIG["CMB_PROCESS_CANCELLED"] and member
